@@ -18,7 +18,7 @@ import (
 // Model/Fmt.lean; their text is pinned here.
 
 // sha1 of the printed text of the formatter's type, constructors and helpers as modelled
-const fmtHelpersPin = "96c50996235fc5c1a4be29445f04827d5986f32c"
+const fmtHelpersPin = "4e14788f2faa15a3e9c9bd88d3936f347f6c9c5f"
 
 var fmtHelperNames = []string{"NewFormatter", "WithState", "WithIndent", "addFreeFloating", "addIndent", "resetFreeFloating",
 	"getFreeFloating", "newToken", "formatList", "formatStmts", "newSemicolonTkn", "insert"}
